@@ -14,20 +14,33 @@ if not os.path.exists(os.path.join(bd, 'build.ninja')) and not os.path.exists(os
 r = subprocess.run(['cmake', '--build', bd, '-j16'], capture_output=True, text=True)
 if r.returncode != 0:
     print(r.stdout[-3000:], r.stderr[-3000:]); print('BASELINE: build failed'); sys.exit(1)
-junit = os.path.join(bd, 'verif-junit.xml')
-subprocess.run(['ctest', '--test-dir', bd, '-j8', '--timeout', '900', '--output-junit', junit, '--test-output-size-passed', '50000000', '--test-output-size-failed', '50000000'],
-               capture_output=True, text=True)
 passed = set()
-root = ET.parse(junit).getroot()
-for tc in root.iter('testcase'):
-    name = tc.get('name')
-    st = tc.get('status')
-    if st == 'run' and tc.find('failure') is None:
-        passed.add(name); passed.add(name + '::' + name)
-    so = tc.find('system-out')
-    if so is not None and so.text:
-        for m in re.finditer(r'\[\s+OK \] ([\w/]+)\.([\w/]+)', so.text):
-            passed.add(m.group(1) + '::' + m.group(2))
+
+
+def collect(junit):
+    root = ET.parse(junit).getroot()
+    for tc in root.iter('testcase'):
+        name = tc.get('name')
+        st = tc.get('status')
+        if st == 'run' and tc.find('failure') is None:
+            passed.add(name); passed.add(name + '::' + name)
+        so = tc.find('system-out')
+        if so is not None and so.text:
+            for m in re.finditer(r'\[\s+OK \] ([\w/]+)\.([\w/]+)', so.text):
+                passed.add(m.group(1) + '::' + m.group(2))
+
+
+OUT = ['--timeout', '900', '--test-output-size-passed', '50000000', '--test-output-size-failed', '50000000']
+junit = os.path.join(bd, 'verif-junit.xml')
+subprocess.run(['ctest', '--test-dir', bd, '-j8', '--output-junit', junit] + OUT, capture_output=True, text=True)
+collect(junit)
+base0 = json.load(open(a.baseline))['stable_pass']
+if any(t not in passed for t in base0):
+    # a few OS-level tests (OSTest::LinkFile, GetExecutablePathUnicode) fail sporadically when several test
+    # programs run side by side on a loaded machine: run the failed test programs once more, one at a time
+    junit2 = os.path.join(bd, 'verif-junit-rerun.xml')
+    subprocess.run(['ctest', '--test-dir', bd, '-j1', '--rerun-failed', '--output-junit', junit2] + OUT, capture_output=True, text=True)
+    if os.path.exists(junit2): collect(junit2)
 base = json.load(open(a.baseline))['stable_pass']
 missing = [t for t in base if t not in passed]
 print('BASELINE: stable=%d passed_now=%d missing=%d' % (len(base), len(passed), len(missing)))
